@@ -72,66 +72,7 @@ Lemma translate_original m eff o v :
   In (eff, o) m -> (forall o', In (eff, o') m -> o' = o) -> translate m [(eff, v)] = [(o, v)].
 Proof. intros Hin Hu. unfold translate, orig_of. cbn. rewrite (alookup_in_unique m eff o Hin Hu). reflexivity. Qed.
 
-(* ---- the pipeline end to end, one level ---- *)
-Definition entries_of (rw : rwtab) (to : str) : list (str * str) :=
-  flat_map (fun e => if str_eqb e to then [] else [(e, to)]) (rw_of rw to).
-Definition m1 (rw : rwtab) (rcpts : list str) : list (str * str) := flat_map (entries_of rw) rcpts.
-
-Lemma translate_nil sts : translate [] sts = sts.
-Proof. unfold translate, orig_of. cbn. induction sts as [|[a b] l IH]; [reflexivity|]. cbn. rewrite IH. reflexivity. Qed.
-
-Lemma add_levels_one_fold to : forall effs accm acch,
-  fold_left (fun acc e => let r := add_levels [] e in
-               (zip_app (fst acc) ((if str_eqb e to then [] else [(e, to)]) :: fst r), snd acc ++ snd r))
-            effs (accm, acch)
-  = (fold_left (fun a e => zip_app a [if str_eqb e to then [] else [(e, to)]]) effs accm, acch ++ effs).
-Proof.
-  induction effs as [|e effs IH]; intros accm acch; cbn [fold_left].
-  - rewrite app_nil_r. reflexivity.
-  - cbn [add_levels fst snd]. rewrite IH. rewrite <- app_assoc. reflexivity.
-Qed.
-Lemma add_levels_one rw to :
-  add_levels [rw] to = (fold_left (fun a e => zip_app a [if str_eqb e to then [] else [(e, to)]]) (rw_of rw to) [], rw_of rw to).
-Proof. cbn [add_levels]. rewrite add_levels_one_fold. reflexivity. Qed.
-
-(* the per-level maps of a one-level pipeline: nothing, or one map *)
-Definition one_map (maps : list (list (str * str))) (m : list (str * str)) : Prop :=
-  (maps = [] /\ m = []) \/ maps = [m].
-Lemma one_map_zip maps m x : one_map maps m -> one_map (zip_app maps [x]) (m ++ x).
-Proof. intros [[-> ->]| ->]; right; reflexivity. Qed.
-Lemma fold_one_map to : forall effs maps m,
-  one_map maps m ->
-  one_map (fold_left (fun a e => zip_app a [if str_eqb e to then [] else [(e, to)]]) effs maps)
-          (m ++ flat_map (fun e => if str_eqb e to then [] else [(e, to)]) effs).
-Proof.
-  induction effs as [|e effs IH]; intros maps m H; cbn [fold_left flat_map].
-  - rewrite app_nil_r. exact H.
-  - rewrite app_assoc. apply IH. apply one_map_zip. exact H.
-Qed.
-Lemma one_map_zip2 a ma b mb : one_map a ma -> one_map b mb -> one_map (zip_app a b) (ma ++ mb).
-Proof.
-  intros [[-> ->]| ->] [[-> ->]| ->]; cbn; try (left; split; reflexivity); try (right; rewrite ?app_nil_r; reflexivity).
-Qed.
-Lemma pipe_maps_one rw : forall rcpts maps m,
-  one_map maps m ->
-  one_map (fold_left (fun acc r => zip_app acc (fst (add_levels [rw] r))) rcpts maps) (m ++ m1 rw rcpts).
-Proof.
-  induction rcpts as [|r rcpts IH]; intros maps m H; cbn [fold_left].
-  - unfold m1. cbn. rewrite app_nil_r. exact H.
-  - unfold m1. cbn [flat_map]. rewrite app_assoc. apply IH. apply one_map_zip2; [exact H|].
-    rewrite add_levels_one. cbn [fst]. apply (fold_one_map r (rw_of rw r) [] []). left. split; reflexivity.
-Qed.
-Lemma translate_levels_one maps m sts : one_map maps m -> translate_levels maps sts = translate m sts.
-Proof. intros [[-> ->]| ->]; cbn; [symmetry; apply translate_nil|reflexivity]. Qed.
-Lemma pipe_handed_one rw rcpts : pipe_handed [rw] rcpts = flat_map (rw_of rw) rcpts.
-Proof.
-  unfold pipe_handed. induction rcpts as [|r l IH]; [reflexivity|]. cbn [flat_map]. rewrite IH, add_levels_one. reflexivity.
-Qed.
-Lemma pipe_want_one rw rcpts : pipe_want [rw] rcpts = flat_map (fun r => map (fun _ => r) (rw_of rw r)) rcpts.
-Proof.
-  unfold pipe_want. induction rcpts as [|r l IH]; [reflexivity|]. cbn [flat_map]. rewrite IH, add_levels_one. reflexivity.
-Qed.
-
+(* ---- the pipeline end to end ---- *)
 Lemma NoDup_app_inv {A} (a b : list A) : NoDup (a ++ b) -> NoDup a /\ NoDup b /\ (forall x, In x a -> ~ In x b).
 Proof.
   induction a as [|x a IH]; cbn; intros H.
@@ -141,7 +82,7 @@ Proof.
     + exact Hb.
     + intros y [->|Hy]; [intros Hin; apply Hn; apply in_or_app; right; exact Hin|apply Hab; exact Hy].
 Qed.
-(* an address handed on once comes from one client recipient *)
+(* an address handed on once comes from one recipient *)
 Lemma handed_once_origin (f : str -> list str) : forall rcpts,
   NoDup (flat_map f rcpts) ->
   forall r r' e, In r rcpts -> In r' rcpts -> In e (f r) -> In e (f r') -> r = r'.
@@ -182,22 +123,62 @@ Proof.
       exact (handed_once_origin _ _ Hn o' r e Ho Hr Hin He).
 Qed.
 
-(* One pipeline, any 1-to-N rewrite table, any recipients and any results of the next hop: if no
-   address is handed to the next hop twice, every result is reported under the address the client
-   supplied - one per address handed on, in order. *)
-Theorem pipeline_results_under_client_addresses rw rcpts fails :
-  NoDup (pipe_handed [rw] rcpts) ->
-  map fst (pipe_e2e [rw] rcpts fails) = pipe_want [rw] rcpts.
+(* no address is handed on twice, at any level *)
+Fixpoint levels_nodup (rws : list rwtab) (rcpts : list str) : Prop :=
+  match rws with
+  | [] => True
+  | rw :: rest => NoDup (flat_map (rw_of rw) rcpts) /\ levels_nodup rest (flat_map (rw_of rw) rcpts)
+  end.
+
+Lemma pipe_handed_app rws : forall a b, pipe_handed rws (a ++ b) = pipe_handed rws a ++ pipe_handed rws b.
 Proof.
-  intros Hn. rewrite pipe_handed_one in Hn. unfold pipe_e2e.
-  rewrite (translate_levels_one _ (m1 rw rcpts)).
-  2:{ unfold pipe_maps. apply (pipe_maps_one rw rcpts [] []). left. split; reflexivity. }
-  rewrite pipe_handed_one, pipe_want_one. unfold translate. rewrite !map_map. cbn [fst].
-  assert (H : forall l, (forall r, In r l -> In r rcpts) ->
-              map (fun x => orig_of (m1 rw rcpts) x) (flat_map (rw_of rw) l)
-              = flat_map (fun r => map (fun _ => r) (rw_of rw r)) l).
-  { induction l as [|r l IH]; intros Hsub; [reflexivity|]. cbn [flat_map]. rewrite map_app. f_equal.
-    - apply map_ext_in. intros e He. apply orig_of_handed; [exact Hn|apply Hsub; left; reflexivity|exact He].
-    - apply IH. intros r' Hr'. apply Hsub. right. exact Hr'. }
-  apply H. intros r Hr. exact Hr.
+  induction rws as [|rw rest IH]; intros a b; cbn [pipe_handed]; [reflexivity|].
+  rewrite flat_map_app. apply IH.
+Qed.
+Lemma pipe_handed_flat rws : forall l, pipe_handed rws l = flat_map (fun r => pipe_handed rws [r]) l.
+Proof.
+  induction l as [|r l IH]; cbn [flat_map].
+  - induction rws as [|rw rest IHr]; [reflexivity|exact IHr].
+  - change (r :: l) with ([r] ++ l). rewrite pipe_handed_app, IH. reflexivity.
+Qed.
+Lemma map_fst_translate m sts : map fst (translate m sts) = map (orig_of m) (map fst sts).
+Proof. unfold translate. rewrite !map_map. reflexivity. Qed.
+
+(* the keys after the translations of all levels, for any results of the next hop *)
+Lemma levels_keys rws : forall rcpts (sts : list (str * bool)),
+  levels_nodup rws rcpts -> map fst sts = pipe_handed rws rcpts ->
+  map fst (translate_levels (pipe_maps rws rcpts) sts) = pipe_want rws rcpts.
+Proof.
+  induction rws as [|rw rest IH]; intros rcpts sts Hn Hk.
+  - cbn. rewrite Hk. cbn. unfold pipe_want. cbn. clear. induction rcpts as [|r l IHl]; [reflexivity|]. cbn. f_equal. exact IHl.
+  - destruct Hn as [Hn1 Hn]. cbn [pipe_maps translate_levels fold_right].
+    rewrite map_fst_translate. fold (translate_levels (pipe_maps rest (flat_map (rw_of rw) rcpts)) sts).
+    rewrite (IH _ sts Hn Hk). unfold pipe_want.
+    assert (H : forall l, (forall r, In r l -> In r rcpts) ->
+                map (orig_of (m1 rw rcpts))
+                    (flat_map (fun r' => map (fun _ => r') (pipe_handed rest [r'])) (flat_map (rw_of rw) l))
+                = flat_map (fun r => map (fun _ => r) (pipe_handed (rw :: rest) [r])) l).
+    { induction l as [|r l IHl]; intros Hsub; [reflexivity|]. cbn [flat_map]. rewrite flat_map_app, map_app. f_equal.
+      - cbn [pipe_handed flat_map]. rewrite app_nil_r.
+        rewrite (pipe_handed_flat rest (rw_of rw r)).
+        assert (Hr : In r rcpts) by (apply Hsub; left; reflexivity).
+        assert (G : forall es, (forall e, In e es -> In e (rw_of rw r)) ->
+                    map (orig_of (m1 rw rcpts)) (flat_map (fun r' => map (fun _ => r') (pipe_handed rest [r'])) es)
+                    = map (fun _ => r) (flat_map (fun r0 => pipe_handed rest [r0]) es)).
+        { induction es as [|e es IHe]; intros Hes; [reflexivity|]. cbn [flat_map]. rewrite !map_app. f_equal.
+          - rewrite map_map. apply map_ext. intros _. apply orig_of_handed; [exact Hn1|exact Hr|apply Hes; left; reflexivity].
+          - apply IHe. intros e' He'. apply Hes. right. exact He'. }
+        apply G. intros e He. exact He.
+      - apply IHl. intros r' Hr'. apply Hsub. right. exact Hr'. }
+    apply H. intros r Hr. exact Hr.
+Qed.
+
+(* Pipelines nested to any depth, any 1-to-N rewrite table at each level, any recipients and any
+   results of the next hop: if no level hands an address on twice, every result is reported under
+   the address the client supplied - one per address handed to the next hop for it, in order. *)
+Theorem pipeline_results_under_client_addresses rws rcpts fails :
+  levels_nodup rws rcpts ->
+  map fst (pipe_e2e rws rcpts fails) = pipe_want rws rcpts.
+Proof.
+  intros Hn. unfold pipe_e2e. apply levels_keys; [exact Hn|]. rewrite map_map. cbn [fst]. apply map_id.
 Qed.
